@@ -200,6 +200,8 @@ def check_cancontinue(ctx, tu, f):
         host = lams[0]
         pvars = [p['id'] for p in f.params]
     cb = [n for n in host.calls() if host.nodes[n].get('op') == '()' and host.call_obj(n) and 'callback' in pstr(path(host, host.call_obj(n)))]
+    cb += [n for n in host.calls() if host.nodes[n].get('c', 0) == -1 and host.nodes[n].get('calleeExpr')
+           and 'callback' in pstr(path(host, host.strip_all_casts(host.nodes[n]['calleeExpr'])))]
     cc = [n for n in host.calls() if (host.callee(n) or {}).get('name') == 'canContinueInvoking']
     ok = len(cb) == 1 and len(cc) == 1
     ctx.ob('C12.F4', f, 'one callback call and one canContinueInvoking call per visited callback', ok, detail='callback calls %d, policy calls %d' % (len(cb), len(cc)))
@@ -207,13 +209,10 @@ def check_cancontinue(ctx, tu, f):
         return
     order = host.pos_dominates(host.pos(cb[0]), host.pos(cc[0])) and host.pos(cb[0]) != host.pos(cc[0]) and host.pos_postdominates(host.pos(cc[0]), host.pos(cb[0]))
     ctx.ob('C12.F4', f, 'canContinueInvoking is evaluated after every callback call', order)
-    a1 = [arg_var(host, a) for a in host.call_args(cb[0])]
-    a2 = [arg_var(host, a) for a in host.call_args(cc[0])]
+    a1 = [arg_source(host, a) for a in host.call_args(cb[0])]
+    a2 = [arg_source(host, a) for a in host.call_args(cc[0])]
 
-    def is_lvalue_use(a):
-        x = host.value_source(a)
-        return host.nodes[host.strip(x)].get('vk') == 'l'
-    lv = all(is_lvalue_use(a) for a in host.call_args(cb[0]) + host.call_args(cc[0]))
+    lv = all(is_lvalue_arg(host, a) for a in host.call_args(cb[0]) + host.call_args(cc[0]))
     ctx.ob('C12.F4', f, 'callback and policy both receive the invocation\'s parameters, in order, as lvalues', a1 == pvars and a2 == pvars and lv,
            detail='callback args %s, policy args %s' % (a1, a2))
     if host is f:
@@ -239,9 +238,46 @@ def check_cancontinue(ctx, tu, f):
         ctx.ob('C12.F4', f, 'the lambda returns the policy result to the traversal (false stops it)', ok)
 
 
+def arg_source(fn, a):
+    """The single variable an argument expression is computed from (looking through parameter-initialising copies,
+    conversions and conversion operators); None when it mentions no or several variables."""
+    v = arg_var(fn, a, allow_conv=True)
+    if v is not None:
+        return v
+    ids = set()
+    for d in [a] + fn.descendants(a):
+        if fn.nodes[d]['cls'] == 'DeclRefExpr' and fn.decl(d)['kind'] in ('parm', 'var'):
+            ids.add(fn.decl(d)['id'])
+    return list(ids)[0] if len(ids) == 1 else None
+
+
+def is_lvalue_arg(fn, a):
+    """The argument uses its source variable as an lvalue: no std::move / std::forward<T&&> / rvalue cast on the way
+    (copies, conversions and conversion operators applied to the lvalue are fine)."""
+    from ..facts import MOVE_LIKE
+    for d in [a] + fn.descendants(a):
+        o = fn.nodes[d]
+        if o['cls'] == 'CallExpr' and short((fn.callee(d) or {}).get('key', '')) in MOVE_LIKE and o.get('vk') == 'x':
+            return False
+        if o['cls'] in ('CXXStaticCastExpr', 'CStyleCastExpr') and o.get('vk') == 'x':
+            return False
+    return True
+
+
+def member_calls(f, field):
+    """Calls of the callable stored in this.<field>: operator() of a class-type member or a call through a function pointer."""
+    out = []
+    for n in f.calls():
+        if f.call_obj(n) and path(f, f.call_obj(n)) == ('this', '.' + field):
+            out.append(n)
+        elif f.nodes[n].get('c', 0) == -1 and f.nodes[n].get('calleeExpr') and path(f, f.strip_all_casts(f.nodes[n]['calleeExpr'])) == ('this', '.' + field):
+            out.append(n)
+    return out
+
+
 def check_condfunctor(ctx, tu, f, ma):
-    conds = [n for n in f.calls() if f.call_obj(n) and path(f, f.call_obj(n)) == ('this', '.condition')]
-    funcs = [n for n in f.calls() if f.call_obj(n) and path(f, f.call_obj(n)) == ('this', '.func')]
+    conds = member_calls(f, 'condition')
+    funcs = member_calls(f, 'func')
     ok = len(conds) == 1 and len(funcs) == 1
     ctx.ob('C12.F5', f, 'one condition call and one function call', ok, detail='condition calls %d, function calls %d' % (len(conds), len(funcs)))
     if not ok:
@@ -260,16 +296,16 @@ def check_condfunctor(ctx, tu, f, ma):
             others += 1
     ctx.ob('C12.F5', f, 'the wrapped function runs exactly when the condition returned true', dom and others == 0 and f.pos_postdominates(f.pos(c), (f.entry, 0)))
     want = [p['id'] for p in f.params]
-    ca = [root_var_id(path(f, a, resolve_refs=False)) for a in f.call_args(c)]
-    fa = [root_var_id(path(f, a, resolve_refs=False)) for a in f.call_args(fn)]
-    lv = all(f.nodes[f.strip(a)].get('vk') == 'l' for a in f.call_args(c))
+    ca = [arg_source(f, a) for a in f.call_args(c)]
+    fa = [arg_source(f, a) for a in f.call_args(fn)]
+    lv = all(is_lvalue_arg(f, a) for a in f.call_args(c))
     ctx.ob('C12.F5', f, 'the condition sees the arguments as lvalues, the function receives the same arguments in order', ca == want and fa == want and lv)
     vs, _ = ma.violations(f)
     ctx.ob('C12.F5', f, 'nothing is moved from before the function call', not vs, detail='\n'.join(v['msg'] for v in vs[:2]))
 
 
 def check_adapter(ctx, tu, f):
-    funcs = [n for n in f.calls() if f.call_obj(n) and path(f, f.call_obj(n)) == ('this', '.func')]
+    funcs = member_calls(f, 'func')
     ok = len(funcs) == 1 and f.pos_postdominates(f.pos(funcs[0]), (f.entry, 0))
     ctx.ob('C12.F5', f, 'the adapter calls the wrapped function exactly once', ok)
     if not ok:
